@@ -239,6 +239,50 @@ def _decomprehend(stmts, counter):
 _cache = {}
 
 
+class _ZipLoops(ast.NodeTransformer):
+    """`for i, (a, b) in enumerate(zip(X, Y))` / `for a, b in zip(X, Y)` / `for i, a in enumerate(X)` over plain attribute or name
+    expressions -> `for i in range(len(X)): a = X[i]; b = Y[i]` (arrays of one length iterate over their first axis; the rules read
+    element accesses through the index).  Only when the iterated expressions are not rebound in the loop body."""
+
+    def __init__(self):
+        self.n = 0
+
+    def visit_For(self, node):
+        self.generic_visit(node)
+        it, tg = node.iter, node.target
+        idx = None
+        if isinstance(it, ast.Call) and norm(it.func) == 'enumerate' and len(it.args) == 1 and not it.keywords and isinstance(tg, ast.Tuple) and len(tg.elts) == 2 and isinstance(tg.elts[0], ast.Name):
+            idx, it, tg = tg.elts[0].id, it.args[0], tg.elts[1]
+        if isinstance(it, ast.Call) and norm(it.func) == 'zip' and it.args and not it.keywords:
+            srcs = list(it.args)
+            tgts = list(tg.elts) if isinstance(tg, (ast.Tuple, ast.List)) else None
+        elif idx is not None:
+            srcs, tgts = [it], [tg]
+        else:
+            return node
+        if tgts is None or len(tgts) != len(srcs) or not all(isinstance(t, ast.Name) for t in tgts) or node.orelse:
+            return node
+        if not all(isinstance(s_, (ast.Name, ast.Attribute)) and 'self' == norm(s_).split('.')[0] and norm(s_).count('.') == 1 for s_ in srcs):
+            return node          # only attributes of self (accumulators): locals may be generators / lists of another kind
+        written = {norm(t) for n in ast.walk(node) if isinstance(n, (ast.Assign, ast.AugAssign)) for t in (n.targets if isinstance(n, ast.Assign) else [n.target])}
+        if any(norm(s_) in written for s_ in srcs):
+            return node
+        if idx is None:
+            self.n += 1
+            idx = f'_zi{self.n}'
+        pre = []
+        for t, s_ in zip(tgts, srcs):
+            a = ast.Assign(targets=[ast.Name(id=t.id, ctx=ast.Store())], value=ast.Subscript(value=copy.deepcopy(s_), slice=ast.Name(id=idx, ctx=ast.Load()), ctx=ast.Load()))
+            ast.copy_location(a, node)
+            pre.append(a)
+        new = ast.For(target=ast.Name(id=idx, ctx=ast.Store()),
+                      iter=ast.Call(func=ast.Name(id='range', ctx=ast.Load()), args=[ast.Call(func=ast.Name(id='len', ctx=ast.Load()), args=[copy.deepcopy(srcs[0])], keywords=[])], keywords=[]),
+                      body=pre + node.body, orelse=[])
+        ast.copy_location(new, node)
+        ast.fix_missing_locations(new)
+        return new
+
+
 def normal(prog, f, skip=(), depth=2):
     _cache = prog.__dict__.setdefault('_normal_cache', {})
     k = (f.key, id(f.node), tuple(sorted(skip)), depth)
@@ -256,6 +300,7 @@ def normal(prog, f, skip=(), depth=2):
     g.inlined_helpers = list(g.inlined)
     f = f0
     node = copy.deepcopy(g.node)
+    node = _ZipLoops().visit(node)
     node.body = _split_tuple_assigns(node.body)
     node.body = _unroll(prog, f, node.body)
     node = _copy_propagate(node)
@@ -382,9 +427,33 @@ def propagate_access_paths(f):
             e = e.value
         return norm(e)
     aliases = {}
+    parent = {}
+    for p_ in ast.walk(node):
+        for c_ in ast.iter_child_nodes(p_):
+            parent[c_] = p_
+
+    def loop_of(x):
+        while x in parent:
+            x = parent[x]
+            if isinstance(x, (ast.For, ast.While)):
+                return x
+        return None
+
+    def stable_in_loop(n):
+        # the attribute is rebound somewhere in the function, but not inside the loop that holds both the binding and every read
+        lp = loop_of(n)
+        if lp is None:
+            return False
+        inside = {id(x) for x in ast.walk(lp)}
+        name = n.targets[0].id
+        reads = [x for x in ast.walk(node) if isinstance(x, ast.Name) and x.id == name and isinstance(x.ctx, ast.Load)]
+        if not all(id(x) in inside for x in reads):
+            return False
+        ra = root_attr(n.value)
+        return not any(isinstance(x, ast.Assign) and id(x) in inside and any(isinstance(t, ast.Attribute) and norm(t) == ra for t in x.targets) for x in ast.walk(lp))
     for n in ast.walk(node):
         if isinstance(n, ast.Assign) and len(n.targets) == 1 and isinstance(n.targets[0], ast.Name) and stores.get(n.targets[0].id) == 1 \
-                and n.targets[0].id not in params and isinstance(n.value, ast.Subscript) and path(n.value) and root_attr(n.value) not in rebound:
+                and n.targets[0].id not in params and isinstance(n.value, ast.Subscript) and path(n.value) and (root_attr(n.value) not in rebound or stable_in_loop(n)):
             aliases[n.targets[0].id] = n
 
     if not aliases:
